@@ -26,6 +26,8 @@
       t13v X v= s= life= age=  tls13ValidateSessionParams on fabricated parameters of a decrypted TLS 1.3 ticket
                                (version token, suite, sealed lifetime in s, age of the sealed timestamp in ms)
       kadd n=<xx> k=<xx> kl=<16|32> h=<xx> | kdel n=<xx>   ticket key list (names/keys = byte repeated)
+      cb <script|-> [k=xx h=xx kl=n wn=xx]   register / remove the application ticket callback with scripted verdicts
+                               (a accept, r reject, l load the named key when not found, w load a key of another name)
       mkt X iv=<xx> j=<k>      matrixCreateSessionTicket -> ticket bank k
       unl X <tspec>            matrixUnlockSessionTicket as the extension parser calls it
                                (extDecode.c 630-690 incl. the state changes around it)
@@ -218,6 +220,32 @@ static int parse_tspec(char *spec, tkt_t *out)
     return 0;
 }
 
+/* scripted application ticket callback (matrixSslSetSessionTicketCallback): one letter per invocation, the last one
+   repeats.  a: return 0   r: return -1   l: if the key was not found load one of the requested name, return 0
+   w: load a key of ANOTHER name (byte g_cb_wn), return 0 */
+static char g_cb_script[32]; static int g_cb_pos, g_cb_calls, g_cb_lastfound, g_cb_on;
+static unsigned char g_cb_k = 0x11, g_cb_h = 0x22, g_cb_wn = 0xee; static int g_cb_kl = 32;
+static int32 scripted_ticket_cb(void *keys, unsigned char name[16], short found)
+{
+    char v = g_cb_script[g_cb_pos]; unsigned char k[32], h[32], nm[16];
+    if (g_cb_script[g_cb_pos + 1]) g_cb_pos++;
+    g_cb_calls++; g_cb_lastfound = found;
+    memset(k, g_cb_k, 32); memset(h, g_cb_h, 32);
+    if (v == 'r') return -1;
+    if (v == 'l' && !found) matrixSslLoadSessionTicketKeys((sslKeys_t *) keys, name, k, (short) g_cb_kl, h, 32);
+    if (v == 'w') { memset(nm, g_cb_wn, 16); matrixSslLoadSessionTicketKeys((sslKeys_t *) keys, nm, k, (short) g_cb_kl, h, 32); }
+    return 0;
+}
+static void cb_set(sslKeys_t *keys, const char *script, const char *k, const char *h, const char *kl, const char *wn)
+{
+    g_cb_pos = g_cb_calls = 0; g_cb_lastfound = -1;
+    if (!script || script[0] == '-') { g_cb_on = 0; g_cb_script[0] = 0; if (keys) matrixSslSetSessionTicketCallback(keys, NULL); return; }
+    strncpy(g_cb_script, script, sizeof g_cb_script - 1); g_cb_script[sizeof g_cb_script - 1] = 0; g_cb_on = 1;
+    g_cb_k = k ? (unsigned char) strtol(k, NULL, 16) : 0x11; g_cb_h = h ? (unsigned char) strtol(h, NULL, 16) : 0x22;
+    g_cb_kl = kl ? atoi(kl) : 32; g_cb_wn = wn ? (unsigned char) strtol(wn, NULL, 16) : 0xee;
+    if (keys) matrixSslSetSessionTicketCallback(keys, scripted_ticket_cb);
+}
+
 static void keys_reset(void)
 {
     if (g_keys) matrixSslDeleteKeys(g_keys);
@@ -290,6 +318,10 @@ static void do_op(char **a, int n)
         const char *kl = kv(a + 1, n - 1, "kl"), *hl = kv(a + 1, n - 1, "hl");
         rc = matrixSslLoadSessionTicketKeys(g_keys, nm, k, (short) (kl ? atoi(kl) : 32), h, (short) (hl ? atoi(hl) : 32)); show = 0;
     }
+    else if (!strcmp(op, "cb") && n >= 2) {
+        cb_set(g_keys, a[1], kv(a + 2, n - 2, "k"), kv(a + 2, n - 2, "h"), kv(a + 2, n - 2, "kl"), kv(a + 2, n - 2, "wn"));
+        printf("cb=%d", g_cb_on); return;
+    }
     else if (!strcmp(op, "kdel")) { unsigned char nm[16]; memset(nm, hexbyte(kv(a + 1, n - 1, "n")), 16); rc = matrixSslDeleteSessionTicketKey(g_keys, nm); show = 0; }
     else if (!strcmp(op, "mkt")) {
         const char *iv = kv(a + 2, n - 2, "iv"), *j = kv(a + 2, n - 2, "j"); tkt_t *t = &g_tbank[(j ? atoi(j) : 0) & 15];
@@ -315,6 +347,7 @@ static void do_op(char **a, int n)
     if (show) { dump_conn(x); dump_table(); }
     if (!strcmp(op, "kadd") || !strcmp(op, "kdel") || !strcmp(op, "unl") || !strcmp(op, "mkt")) {
         printf(" K["); for (psSessionTicketKeys_t *k = g_keys->sessTickets; k; k = k->next) printf("%02x/%d/%d,", k->name[0], (int) k->symkeyLen, (int) k->inUse); printf("]");
+        if (g_cb_on && !strcmp(op, "unl")) printf(" C%d:%d", g_cb_calls, g_cb_lastfound);
     }
 }
 
@@ -322,7 +355,7 @@ static void run_ops(void)
 {
     matrixSslClose(); matrixSslOpen();
     g_now_ms = 1000000; memset(g_conn, 0, sizeof g_conn); memset(g_bank, 0, sizeof g_bank); memset(g_tbank, 0, sizeof g_tbank);
-    keys_reset();
+    keys_reset(); cb_set(NULL, "-", NULL, NULL, NULL, NULL);
     int i = 1;
     while (i < g_ntok) {
         int j = i; while (j < g_ntok && strcmp(g_tok[j], ";") != 0) j++;
@@ -461,6 +494,12 @@ static void live_cmd(char **a, int n)
         else if (a[0][3] == 'x') { if (pos >= 0 && pos < p->pskIdLen) { p->pskId[pos] ^= (unsigned char) hexbyte(a[2]); printf("pskx:ok:%d", (int) p->pskIdLen); } else printf("pskx:range:%d", (int) p->pskIdLen); }
         else { if (pos >= 0 && pos < p->pskLen) { p->pskKey[pos] ^= (unsigned char) hexbyte(a[2]); printf("pskkx:ok"); } else printf("pskkx:range"); }
     }
+    else if (!strcmp(a[0], "tcb") && n >= 2) {        /* ticket callback on the persistent server keys; default key material = the one sess_new loads */
+        const char *k = kv(a + 2, n - 2, "k"), *h = kv(a + 2, n - 2, "h");
+        cb_set(g_skeys_persist, a[1], k ? k : "5a", h ? h : "a5", kv(a + 2, n - 2, "kl"), kv(a + 2, n - 2, "wn"));
+        printf("tcb:%d", g_skeys_persist ? g_cb_on : -1);
+    }
+    else if (!strcmp(a[0], "tcb?")) printf("tcb:calls=%d,found=%d", g_cb_calls, g_cb_lastfound);
     else if (!strcmp(a[0], "sidinfo")) {
         if (g_saved_sid) { printf("sid:len=%d,tk=%d,id=", (int) g_saved_sid->idLen, (int) g_saved_sid->sessionTicketLen); puthex(g_saved_sid->id, g_saved_sid->idLen); }
         else printf("sid:none");
@@ -486,7 +525,7 @@ static void run_live(void)
     if (g_saved_sid) { matrixSslDeleteSessionId(g_saved_sid); g_saved_sid = NULL; }
     if (g_skeys_persist) { matrixSslDeleteKeys(g_skeys_persist); g_skeys_persist = NULL; }
     for (int k = 0; k < 8; k++) if (g_sid_stash[k]) { matrixSslDeleteSessionId(g_sid_stash[k]); g_sid_stash[k] = NULL; }
-    matrixSslClose(); matrixSslOpen();
+    matrixSslClose(); matrixSslOpen(); cb_set(NULL, "-", NULL, NULL, NULL, NULL);
     g_now_ms = 1000000; g_have_first = 0;
     int i = 1;
     while (i < g_ntok) {
